@@ -120,6 +120,7 @@ func init() {
 	"slices.SortFunc":         extSlicesSortFunc,
 	"slices.Sort":             extSlicesSortFunc,
 	"cmp.Compare":             extCmpCompare,
+	"(*github.com/relab/gorums.ServerCtx).Release": extNoop, // lets gorums process the next request; no replica state
 	"maps.Keys":               extMapsKeys,
 	"slices.Sorted":           extSlicesSorted,
 	"(encoding/binary.littleEndian).PutUint32": extPutUint(4),
